@@ -8,7 +8,7 @@
    (Proofs_ConsensusNet_Sim.v). *)
 From Coq Require Import List ZArith NArith Bool Arith Lia.
 From Goloop Require Import Model_ConsensusNode Proofs_ConsensusNode Proofs_ConsensusNode_C01
-  Model_ConsensusNet Proofs_ConsensusNet_Link Proofs_ConsensusNet_Sim.
+  Model_ConsensusNet Proofs_ConsensusNet_Link Proofs_ConsensusNet_LockWAL Proofs_ConsensusNet_Sim.
 Import ListNotations.
 Open Scope Z_scope.
 
@@ -26,8 +26,9 @@ Section RunP.
   Hypothesis E_ok : forall v, In v E -> 0 <= v_from v < Z.of_nat n /\ 0 <= v_round v /\ v_from v <> own.
   Variable T0 : TM.state.
   Variable K0 : vote -> Prop.
+  Hypothesis blocks_ok : forall x, In x blocks -> (1 <= b_parts x)%N.
 
-  Local Notation Sim := (Sim n byz i E T0 K0).
+  Local Notation Sim := (Sim n byz blocks i E T0 K0).
   Local Notation known := (known i E).
 
   Record P (s : st) : Prop := {
@@ -53,7 +54,7 @@ Section RunP.
     - exists T. eapply Sim_ssame; eauto.
   Qed.
 
-  Ltac ss_setter := constructor; cbn; auto; tauto.
+  Ltac ss_setter := ss_plain.
 
   Lemma P_set_timer x s : P s -> P (set_timer x s).
   Proof. apply P_same; [apply nt_set_timer, neutral_refl|apply ds_set_timer, dsame_refl|ss_setter]. Qed.
@@ -126,7 +127,7 @@ Section RunP.
     intros H R K. pose proof (P_fuse H) as F. destruct H as [HI HD [T HS]]. constructor.
     - apply Inv_send_proposal; auto.
     - eapply InvD_dsame; [apply ds_send_proposal, dsame_refl|auto].
-    - exists T. eapply Sim_ssame; [apply ssame_send_proposal; auto|auto].
+    - exists T. apply Sim_send_proposal; auto.
   Qed.
 
   Lemma P_set_prop_req s :
@@ -169,28 +170,35 @@ Section RunP.
     - exists T. eapply Sim_ssame; [|exact HS]. ss_setter.
   Qed.
 
-  Lemma P_write_lock_wal pv b s :
-    (forall v, In v (vs_list pv) -> v_type v = Prevote) -> P s -> P (write_lock_wal blocks pv b s).
-  Proof.
-    intros K H. pose proof (P_fuse H) as F. destruct H as [HI HD [T HS]]. constructor.
-    - eapply Inv_neutral; [apply nt_write_lock_wal, neutral_refl|auto].
-    - apply InvD_write_lock_wal; auto.
-    - exists T. eapply Sim_ssame; [apply ssame_write_lock_wal; auto|auto].
-  Qed.
-
   (* votes of the engine's own vote sets are known *)
   Lemma votes_for_known s T r t u : Sim s T -> In (Some u) (votes_for n s r t) -> known s u.
   Proof. intros H Hu. apply (sm_hvs H). eapply hvs_for_in; eauto. Qed.
 
-  Lemma P_lock s b x :
+  Lemma P_emit_rvl l s :
+    (P s -> forall v, In v l -> known s v) -> P s -> P (emit (OWrite WRound (RVoteList l)) s).
+  Proof.
+    intros K H. specialize (K H). destruct H as [HI HD [T HS]]. constructor.
+    - eapply Inv_neutral; [apply neutral_emit; reflexivity|auto].
+    - eapply InvD_dsame; [apply ds_emit; [reflexivity|apply dsame_refl]|auto].
+    - exists T. apply Sim_write_r; auto.
+  Qed.
+
+  Lemma vs_list_known s T r t v : Sim s T -> In v (vs_list (votes_for n s r t)) -> known s v.
+  Proof. intros H Hv. apply vs_list_in in Hv as [k Hk]. eapply votes_for_known; eauto. eapply nth_error_In; eauto. Qed.
+
+  (* lock: memory, ghost log, lock WAL (written and synced) *)
+  Lemma P_lock_log s b x :
     P s -> status_ s = Running -> (5 < step_code (stp s))%N ->
     vs_over23 (votes_for n s (round s) Prevote) = Some (Some b) -> bps_id x = Some b ->
-    P (set_lock (round s) x (glog_add (GLock (round s) b (votes_for n s (round s) Prevote)) s)).
+    P (write_lock_wal blocks (votes_for n s (round s) Prevote) b
+         (set_lock (round s) x (glog_add (GLock (round s) b (votes_for n s (round s) Prevote)) s))).
   Proof.
     intros [HI HD [T HS]] R L O X. constructor.
-    - eapply Inv_neutral; [apply nt_set_lock, nt_glog_add, neutral_refl|auto].
-    - apply InvD_lock_here; auto.
-    - eapply Sim_lock; eauto.
+    - eapply Inv_neutral; [apply nt_write_lock_wal, nt_set_lock, nt_glog_add, neutral_refl|auto].
+    - apply InvD_write_lock_wal.
+      + intros v Hv. eapply vs_list_type; [apply hvs_for_wf, (d_hvs HD)|exact Hv].
+      + apply InvD_lock_here; auto.
+    - eapply Sim_lock_log; eauto.
       all: try (apply quorum_of_over23; auto; apply hvs_for_wf, (d_hvs HD)).
       all: try (intros u Hu; eapply votes_for_known; eauto).
   Qed.
@@ -297,14 +305,15 @@ Section RunP.
       + apply ds_emit; [reflexivity|]. apply ds_emit; [reflexivity|]. apply dsame_refl.
     - exists T.
       eapply Sim_ssame; [apply ssame_set_by_psid|].
-      eapply Sim_ssame; [apply ssame_emit; [apply fuse_emit; exact F2|reflexivity]|].
-      eapply Sim_ssame; [apply ssame_emit; [exact F2|reflexivity]|].
-      subst s2. apply Sim_glog_add.
-      + cbn [gev_votes]. rewrite V1. intros u Hu.
-        assert (K : known s u) by (eapply votes_for_known; eauto).
-        destruct K as [K|[r0 [t0 [d0 [k0 [K ->]]]]]]; [left; auto|right]. exists r0, t0, d0, k0. split; auto.
-        subst s1. rewrite E0. exact K.
-      + subst s1. rewrite E0. eapply Sim_ssame; [|exact HS]. ss_setter.
+      apply Sim_emit; [reflexivity|].
+      assert (HS2 : Sim s2 T).
+      { subst s2. apply Sim_glog_add.
+        + cbn [gev_votes]. rewrite V1. intros u Hu.
+          assert (K : known s u) by (eapply votes_for_known; eauto).
+          destruct K as [K|[r0 [t0 [d0 [k0 [K ->]]]]]]; [left; auto|right]. exists r0, t0, d0, k0. split; auto.
+          subst s1. rewrite E0. exact K.
+        + subst s1. rewrite E0. eapply Sim_ssame; [|exact HS]. ss_setter. }
+      apply Sim_write_c; auto. cbn [rec_sub]. intros v Hv. eapply vs_list_known; eauto.
   Qed.
 
   (* ------------------------------------------------------------------ the induction over [run] *)
@@ -339,7 +348,7 @@ Section RunP.
         apply InvD_new_step; [split; discriminate|discriminate|auto].
     - exists T. eapply Sim_ssame; [|apply Sim_new_step; exact HS].
       eapply ssame_trans; [apply (@ssame_emit (OImportReq b false false) (new_step SPrevote s)); [rewrite fuse_new_step; exact F|reflexivity]|].
-      constructor; cbn; auto; tauto.
+      ss_setter.
   Qed.
 
   Lemma P_set_cur_same x s : bps_id x = bps_id (cur s) -> P s -> P (set_cur x s).
@@ -385,12 +394,13 @@ Section RunP.
       | (apply P_set_status; [discriminate|])
       | apply P_set_timer | apply P_set_pol | apply P_set_bpm | apply P_set_commit_round | apply P_set_commit_req
       | apply P_fill_from_cache
-      | (apply P_write_lock_wal; [ | ])
+      | apply P_emit_rvl
       | (apply P_emit; [reflexivity|])
       | (apply P_new_step; [split; discriminate|discriminate|]) ].
 
   Ltac pcrunch IH :=
     repeat match goal with
+      | |- P (write_lock_wal _ _ _ _) => fail 1
       | |- P (let x := ?v in _) => plet_step
       | E : ?g = (fun _ => _) |- P (?g _) => rewrite E; cbv beta
       | |- P (run _ _ _ _ _ _ _) => apply IH
@@ -470,19 +480,18 @@ Section RunP.
       all: subst s0; apply P_import_request; auto.
     - (* AEnterPrevoteWait *)
       pcrunch IH.
+      all: intros [_ _ [T' HS']] v Hv; subst; eapply vs_list_known; eauto.
     - (* AEnterPrecommit *)
       assert (HP0 : status_ (new_step SPrecommit s) = Running -> P (new_step SPrecommit s))
         by (intros _; apply P_new_step; [split; discriminate|discriminate|auto]).
       pcrunch IH.
-      all: try solve [ intros v Hv; subst s1; eapply vs_list_type;
-                       [ apply hvs_for_wf; apply d_hvs; apply p_invd; apply HP0; first [ assumption | reflexivity ] | exact Hv ] ].
       all: try solve [ constructor;
              [ cbn [pre]; intros _; vote_ok_tac HI R Precommit
              | first [ cbn [preD gev_ok]; exact I
                      | subst; apply preD_precommit_lock; [ reflexivity | apply bps_id_of_is; assumption ]
                      | subst; apply preD_precommit_lock; [ reflexivity | apply bps_id_of_is; repeat andb_hyp; assumption ] ]
              | exact I ] ].
-      all: try solve [ subst s1; apply P_lock;
+      all: try solve [ subst s3 s1; apply P_lock_log;
              [ apply HP0; reflexivity | exact Heqs1 | norm R; cbn; lia | assumption
              | apply bps_id_of_is; first [assumption | repeat andb_hyp; assumption] ] ].
       all: try solve [ apply P_unlock_here;
@@ -496,6 +505,7 @@ Section RunP.
           [ apply HP0; reflexivity | exact Heqs1 | reflexivity | subst; reflexivity | assumption | intros; discriminate ] ].
     - (* AEnterPrecommitWait *)
       pcrunch IH.
+      all: try solve [intros [_ _ [T' HS']] v Hv; subst; eapply vs_list_known; eauto].
       constructor; [exact I| |exact I].
       apply (@preD_commit n s0);
         [ apply p_invd; subst s0; pcrunch IH | subst s2; autorewrite with frame; reflexivity
@@ -546,6 +556,7 @@ Section RunP.
 
   Ltac hp :=
     repeat match goal with
+      | |- P (write_lock_wal _ _ _ _) => fail 1
       | |- P (let x := ?v in _) => plet_step
       | |- P (run _ _ _ _ _ _ _) => apply run_P
       | |- P (new_round _ _) => apply P_new_round; [ apply Z.ltb_lt; repeat andb_hyp; eauto | ]
@@ -669,7 +680,7 @@ Section RunP.
     intros H. pose proof (P_fuse H) as F. pose proof (P_unblown H) as U. destruct H as [HI HD [T HS]]. constructor.
     - destruct HI as [d k c]. constructor; cbn; auto. intros R _. apply Ctl_set_outs; auto.
     - eapply InvD_dsame; [apply ds_set_outs, dsame_refl|auto].
-    - exists T. eapply Sim_ssame; [|exact HS]. constructor; cbn; auto; tauto.
+    - exists T. eapply Sim_ssame; [|exact HS]. ss_plain.
   Qed.
 
   (* the votes an event carries for the current height were known when the event began *)
@@ -742,6 +753,208 @@ Section RunP.
   Proof.
     intros H L. rewrite restart_init. apply run_P; [|constructor; exact I].
     apply P_new_step; [split; discriminate|discriminate|]. eapply P_fresh; eauto.
+  Qed.
+
+  (* ------------------------------------------------------------------ crash (between events) *)
+
+  Lemma Forall_crash {A} (Q : A -> Prop) w k (f : wrec -> A) :
+    Forall Q (map f (wal_all w)) -> Forall Q (map f (wal_all (wal_crash w k))).
+  Proof.
+    unfold wal_all, wal_crash. cbn. rewrite !map_app. intro F. apply Forall_app in F as [F1 F2].
+    apply Forall_app. split; auto. rewrite Forall_forall in *. intros x Hx. apply F2.
+    apply in_map_iff in Hx as [y [<- Hy]]. apply in_map. eapply In_firstn_incl; eauto.
+  Qed.
+
+  Lemma Forall_wal_crash (Q : wrec -> Prop) w k : Forall Q (wal_all w) -> Forall Q (wal_all (wal_crash w k)).
+  Proof.
+    intro F. pose proof (@Forall_crash wrec Q w k (fun x => x)) as G. rewrite !map_id in G. auto.
+  Qed.
+
+  Lemma P_crash kr kl kc s : P s -> P (crash kr kl kc s).
+  Proof.
+    intros [HI HD [T HS]]. constructor.
+    - apply Inv_crash; auto.
+    - apply InvD_crash; auto.
+    - exists T. unfold crash. apply Sim_set_status; [discriminate|].
+      assert (Sc : score s (set_wals (wal_crash (wal_r s) kr) (wal_crash (wal_l s) kl) (wal_crash (wal_c s) kc) s))
+        by (constructor; cbn; auto; tauto).
+      assert (Wl : wal_all (wal_crash (wal_l s) kl) = wal_all (wal_l s)).
+      { unfold wal_all, wal_crash. cbn. rewrite (sm_lsync HS). destruct kl; reflexivity. }
+      apply (Sim_score Sc HS); cbn [wal_r wal_l wal_c set_wals].
+      + apply Forall_wal_crash. eapply Forall_rec_sub_mono; [|apply (sm_walr HS)]. intro v. apply known_score; auto.
+      + apply Forall_wal_crash. eapply Forall_rec_sub_mono; [|apply (sm_walc HS)]. intro v. apply known_score; auto.
+      + destruct (sm_shape HS) as [L [Sh LL]]. exists L. split; auto. rewrite Wl.
+        eapply lockwal_shape_mono; [|exact Sh]. intro v. apply known_score; auto.
+      + unfold wal_crash. cbn. rewrite (sm_lsync HS). destruct kl; reflexivity.
+  Qed.
+
+  (* ------------------------------------------------------------------ restart: the three WALs are replayed *)
+
+  Hypothesis Hb3 : (3 * TM.countn byz n < n)%nat.
+
+  (* no two conflicting polkas among the known votes: the abstract protocol has at most one per round *)
+  Lemma known_unique s T :
+    Sim s T ->
+    forall r vs d vs' d',
+      vs_wf n r Prevote vs -> vs_sub (known s) vs -> over23 (vs_count_dec vs d) n = true ->
+      vs_wf n r Prevote vs' -> vs_sub (known s) vs' -> over23 (vs_count_dec vs' d') n = true -> d = d'.
+  Proof.
+    intros H r vs d vs' d' W S O W' S' O'.
+    assert (Q : TM.polka n (TM.soup T) (Z.to_N r) d = true).
+    { refine (sim_quorum (t:=Prevote) H (conj W O) _). apply known_vs_sub; auto. }
+    assert (Q' : TM.polka n (TM.soup T) (Z.to_N r) d' = true).
+    { refine (sim_quorum (t:=Prevote) H (conj W' O') _). apply known_vs_sub; auto. }
+    exact (TP.one_polka_per_round n byz Hb3 T (Z.to_N r) d d' (sm_reach H) Q Q').
+  Qed.
+
+  Lemma shape_quorum (K : vote -> Prop) recs b r :
+    lockwal_shape n blocks K recs (Some (b, r)) ->
+    exists pv, quorum_ev n r Prevote (Some b) pv /\ vs_sub K pv.
+  Proof.
+    intro Sh. remember (Some (b, r)) as L eqn:EL. revert b r EL.
+    induction Sh as [|recs L pv b0 r0 Sh IH Q Sp NP|recs L pv b0 r0 pre Sh IH Q Sp PR]; intros b r EL.
+    - discriminate.
+    - inversion EL; subst. eauto.
+    - eauto.
+  Qed.
+
+  Lemma hvs_sub_has (K : vote -> Prop) h : hvs_sub K h -> forall u, hvs_has h u -> K u.
+  Proof.
+    intros S u [r [p [Hp [Hu|Hu]]]]; destruct (S r p Hp) as [A B]; apply In_nth_error in Hu as [k Hk]; eauto.
+  Qed.
+
+  Lemma restart_s0_inv s s0 ok L :
+    Inv own s -> InvD n s -> restart_s0 n own blocks s = (s0, ok, L) ->
+    Inv own s0 /\ InvD n s0 /\ 0 <= round s0 /\ fuse s0 = fuse s.
+  Proof.
+    intros HI HD E1. unfold restart_s0 in E1.
+    set (wr := wal_recover (wal_r s)) in *. set (wl := wal_recover (wal_l s)) in *. set (wc := wal_recover (wal_c s)) in *.
+    destruct (fold_left (apply_round_rec n own) (w_synced wr) _) as [[h rs] ok'] eqn:F1.
+    destruct (fold_left (apply_lock_rec n blocks) (w_synced wl) _) as [[[h2 rs2] bp] last] eqn:F2.
+    destruct (fold_left (apply_commit_rec n) (w_synced wc) _) as [h3 rs3] eqn:F3.
+    inversion E1; subst s0 ok L; clear E1.
+    assert (Ho : 0 <= own < Z.of_nat n) by lia.
+    pose proof (fold_round_covers n Ho (w_synced wr) ([], (0, SNewHeight), true)) as Cov.
+    cbv zeta in Cov. rewrite F1 in Cov. cbn [fst snd] in Cov. destruct Cov as [Cv Cp].
+    pose proof (fold_round_mono n own (w_synced wr) ([], (0, SNewHeight), true)) as M1. rewrite F1 in M1. cbn [fst snd] in M1.
+    pose proof (fold_lock_mono n blocks (w_synced wl) (h, rs, None, None)) as M2. rewrite F2 in M2. cbn [fst snd] in M2.
+    pose proof (fold_commit_mono n (w_synced wc) (h2, rs2)) as M3. rewrite F3 in M3. cbn [fst snd] in M3.
+    assert (M : pos_le (pcode rs) (pcode rs3)) by (eapply pos_le_trans; eauto).
+    destruct (@fold_round_inv n own (w_synced wr) ([], (0, SNewHeight), true) (hvs_wf_nil n)) as [W1 S1].
+    { unfold restorable; cbn; auto. }
+    rewrite F1 in W1, S1. cbn [fst snd] in W1, S1.
+    assert (LW : Forall lockrec_ok (w_synced wl)) by (subst wl; cbn; apply (d_lockwal HD)).
+    assert (A2 : lock_acc_ok n (h2, rs2, bp, last)).
+    { rewrite <- F2. apply fold_lock_inv; auto. apply lock_acc_ok_intro; auto; intros; discriminate. }
+    destruct A2 as [W2 [S2 [_ L2]]].
+    destruct (@fold_commit_inv n (w_synced wc) (h2, rs2) W2 S2) as [W3 S3].
+    rewrite F3 in W3, S3. cbn [fst snd] in W3, S3.
+    split; [|split; [|split]].
+    - destruct HI as [d k c]. constructor; cbn.
+      + intros m Hm. subst wr. cbn. unfold wal_all. apply in_or_app; left; auto.
+      + auto.
+      + intros _ _.
+        assert (WI : forall x, In x (wal_all wr) -> In x (w_synced wr)).
+        { subst wr. unfold wal_all. cbn. intros x Hx. rewrite app_nil_r in Hx. exact Hx. }
+        constructor; cbn -[wal_all]; unfold pos; cbn -[wal_all].
+        * intros v Hv Hov. apply WI in Hv. eapply pos_le_trans; [apply Cv; auto|exact M].
+        * intros r b p Hr. apply WI in Hr. eapply pos_le_trans; [eapply Cp; eauto|exact M].
+        * intros; discriminate.
+        * intros; discriminate.
+    - apply pos_le_fst in M3. cbn [fst pcode] in M3.
+      destruct HD as [hh l k i0 c d lw]. constructor; cbn; auto.
+      + destruct last as [[b lr]|]; cbn; [|intro H; contradiction].
+        intros _. specialize (L2 _ _ eq_refl). lia.
+      + intros; discriminate.
+      + intro Ec. exfalso. eapply restorable_not_commit; eauto.
+      + subst wl. unfold wal_all. cbn. rewrite app_nil_r. exact lw.
+    - cbn. apply pos_le_fst in M1, M2, M3. cbn [fst pcode] in M1, M2, M3. lia.
+    - reflexivity.
+  Qed.
+
+  Lemma wal_all_recover w : wal_all (wal_recover w) = wal_all w.
+  Proof. unfold wal_all, wal_recover. cbn. apply app_nil_r. Qed.
+
+  Lemma P_restart_s0 s :
+    P s -> exists s0 ok L, restart_s0 n own blocks s = (s0, ok, L) /\ P s0.
+  Proof.
+    intros [HI HD [T HS]].
+    destruct (fold_left (apply_round_rec n own) (wal_all (wal_r s)) ([], (0, SNewHeight), true)) as [[h rs] ok] eqn:FR.
+    assert (Hh : hvs_sub (known s) h).
+    { pose proof (@fold_round_sub n own (known s) (wal_all (wal_r s)) ([], (0, SNewHeight), true) (sm_walr HS) (hvs_sub_nil (known s))) as X.
+      rewrite FR in X. exact X. }
+    destruct (sm_shape HS) as [L [Sh LL]].
+    destruct (restart_s0_lock own (known_unique HS) s FR Hh Sh)
+      as [s0 [E0 [R0 [Lr0 [Lk0 [Cu0 [Lo0 [W0 [S0 [Wl0 [Wr0 [Wc0 [Se0 [Gl0 [De0 _]]]]]]]]]]]]]]].
+    destruct (restart_s0_inv HI HD E0) as [HI0 [HD0 [Rd0 Fu0]]].
+    exists s0, ok, L. split; auto. constructor; auto.
+    assert (KE : forall v, known s0 v <-> known s v).
+    { intro v. unfold Proofs_ConsensusNet_Sim.known, sent_vote. rewrite Se0. tauto. }
+    assert (CO : TM.correct n byz i = true) by (apply correct_i; auto).
+    (* the abstract lock becomes the restored lock *)
+    assert (LS : TM.lock_safe n (TM.soup T) i (convL L) = true).
+    { destruct LL as [LL|LL].
+      - apply (TP.lock_safe_unlocked n byz Hb3 T i (convL L) (sm_reach HS) CO LL).
+      - rewrite <- LL. apply (TP.lock_safe_same n byz Hb3 T i (sm_reach HS) CO). }
+    pose proof (tm_setlock n byz i Hi Hbyz T _ LS) as St.
+    exists (TM.set_lock T i (convL L)).
+    constructor.
+    - eapply TP.reachable_step; [apply (sm_reach HS)|exact St].
+    - apply frame_set_lock, (sm_frame HS).
+    - intro m. cbn [TM.set_lock TM.soup]. rewrite (sm_soup HS). split; intros [v [K C]]; exists v; split; auto; apply KE; auto.
+    - intros _. cbn. rewrite upd_same, Lo0. destruct L as [[b r]|]; reflexivity.
+    - intros lr b. cbn. rewrite upd_same. intro El.
+      destruct L as [[b0 r0]|]; [|discriminate]. cbn in El. inversion El; subst.
+      destruct (shape_quorum Sh) as [pv [Q Sp]].
+      eapply (sim_quorum (t:=Prevote)); eauto. apply known_vs_sub; auto.
+    - intros u Hu. apply KE. eapply hvs_sub_has; [apply S0, (sm_walc HS)|exact Hu].
+    - rewrite Gl0. intros e u He Hu. apply KE. eapply (sm_glog HS); eauto.
+    - rewrite De0. cbn. apply (sm_dec HS).
+    - exact Rd0.
+    - rewrite Se0. apply (sm_sent HS).
+    - rewrite Fu0. apply (sm_fuse HS).
+    - intros v Hv. apply KE. apply (sm_k0 HS); auto.
+    - rewrite Wr0, wal_all_recover. eapply Forall_rec_sub_mono; [|apply (sm_walr HS)]. intro v; apply KE.
+    - rewrite Wc0, wal_all_recover. eapply Forall_rec_sub_mono; [|apply (sm_walc HS)]. intro v; apply KE.
+    - exists L. split.
+      + rewrite Wl0, wal_all_recover. eapply lockwal_shape_mono; [|exact Sh]. intro v; apply KE.
+      + right. cbn. rewrite upd_same. reflexivity.
+    - rewrite Wl0. reflexivity.
+  Qed.
+
+  Lemma P_restart s : P s -> P (restart n own blocks delay s).
+  Proof.
+    intro HP. destruct (P_restart_s0 HP) as [s0 [ok [L [E0 HP0]]]].
+    rewrite restart_decomp, E0. unfold restart_fin.
+    destruct (negb ok); [apply P_panic; auto|].
+    assert (D : P (start_dispatch n own blocks delay s0)).
+    { unfold start_dispatch. destruct (stp s0); auto.
+      - destruct (Z.eqb (round s0) 0).
+        + apply run_P; [|constructor; exact I]. apply P_new_step; [split; discriminate|discriminate|auto].
+        + apply run_P; [auto|constructor; exact I].
+      - apply run_P; [auto|constructor; exact I].
+      - destruct (vs_has23 _); auto. apply run_P; [auto|constructor; exact I].
+      - destruct (vs_has23 _); auto. apply run_P; [auto|constructor; exact I]. }
+    destruct L as [[b lr]|]; auto.
+    destruct (negb (decodable blocks b)); auto. apply P_panic; auto.
+  Qed.
+
+  (* ------------------------------------------------------------------ one event, crashes between events allowed *)
+
+  Lemma P_step_ev_any e s :
+    P s -> ev_k0 e -> P (step_ev n own blocks delay e None s).
+  Proof.
+    intros HP K. destruct (ev_plain e) eqn:Pl; [apply P_step_ev; auto|].
+    cbv beta delta [step_ev].
+    set (s0 := set_outs [] None s).
+    assert (H0 : P s0) by (subst s0; apply P_set_outs; auto).
+    clearbody s0. cbv zeta.
+    match goal with |- P (if blown ?x then _ else _) => set (s1 := x) end.
+    assert (H1 : P s1).
+    { subst s1. destruct e; try discriminate Pl.
+      - destruct (status_ s0); auto; apply P_crash; auto.
+      - destruct (status_ s0); auto. apply P_restart; auto. }
+    clearbody s1. unfold blown. rewrite (P_fuse H1). exact H1.
   Qed.
 
 End RunP.
